@@ -60,6 +60,8 @@ def _c12():
     add("c12_solve4_dense", tier="thorough", unit="qdldl::_solve", inst="GF(13)", bounds="n=4 dense L", oracle=sol_or, timeout=2400)
     add("c12_solve4_sparse", tier="thorough", unit="qdldl::_solve", inst="GF(13)", bounds="n=4 L mask 0b101001", oracle=sol_or, timeout=2400)
     reg_or = "pivot replaced by delta*sign <=> regularisation on and D*sign < eps; count matches; positive inertia == #{D>0}; Err(ZeroPivot) <=> a pivot == 0"
+    add("c12_inertia_after_refactor", nofloat=True, unit="QDLDLFactorisation::{new, update_values, refactor, positive_inertia} (public API; _qdldl_new, _factor, QDLDLWorkspace)", inst="f64", bounds="2x2 diagonal matrix, identity ordering supplied (no AMD), regularisation off, LOGICAL construction, then update_values with symbolic small integers and refactor", oracle="positive_inertia() == number of positive entries of D after the refactor", timeout=1500, mem_gb=24)
+    add("c12_inertia_after_refactor_numeric", nofloat=True, unit="same", inst="f64", bounds="same, numeric construction (values 1, 1)", oracle="also == 2 after new", timeout=1500, mem_gb=24)
     add("c12_regularize_signs_ppm", nofloat=True, unit="qdldl::_factor_inner (regularisation / inertia logic)", inst="f64, every bit pattern", bounds="n=3 diagonal, signs (+,+,-), any eps/delta, enable on/off", oracle=reg_or)
     add("c12_regularize_signs_mpm", nofloat=True, tier="thorough", unit="qdldl::_factor_inner", inst="f64 all bit patterns", bounds="n=3 diagonal, signs (-,+,-)", oracle=reg_or)
     return H
@@ -364,6 +366,7 @@ PROPS["C13"] = {
         ("c13_soc3_hs_dense", dict(tier="thorough", unit="same", inst="GF(13)", bounds="dim 3", oracle="same", timeout=9000)),
         ("c13_soc3_hs_block_p7", dict(unit="SecondOrderCone::get_Hs (dense packed block)", inst="GF(7)", bounds="dim 3", oracle="unpacked packed-triu block == mul_Hs", timeout=1500)),
         ("c13_soc3_update_scaling", dict(unit="SecondOrderCone::update_scaling", inst="GF(13)", bounds="dim 3, all s,z with square nonzero residuals", oracle="w normalised; eta^4 = res(s)/res(z)", timeout=2400, mem_gb=20)),
+        ("c13_nn_scaling_pow2_f64", dict(nofloat=True, unit="NonnegativeCone::update_scaling / get_Hs / mul_Hs", inst="f64, s and z powers of two with an even exponent difference, exponents in [-120,120]", bounds="dim 2", oracle="KKT block == s/z exactly at every magnitude (ratios up to 2^240); block * x == mul_Hs(x)", timeout=1200)),
         ("c13_soc5_identity_scaling_resets_expansion", dict(unit="SecondOrderCone::set_identity_scaling, mul_Hs, get_Hs (sparse expansion)", inst="GF(17)", bounds="dim 5; arbitrary previous contents of w, eta, d, u, v; arbitrary x", oracle="afterwards mul_Hs == identity and eta^2 (D + uu' - vv') == mul_Hs", timeout=1200)),
         ("c13_soc3_identity_scaling", dict(unit="SecondOrderCone::set_identity_scaling, mul_Hs (dense)", inst="GF(17)", bounds="dim 3", oracle="mul_Hs == identity", timeout=900)),
         ("c13_soc5_update_scaling_sparse_p17", dict(unit="SecondOrderCone::update_scaling incl. sparse_data (u,v,d), get_Hs, mul_Hs", inst="GF(17)", bounds="dim 5 (two symbolic tail entries, the others zero)", oracle="as _p7", timeout=3000, mem_gb=24)),
@@ -450,6 +453,7 @@ PROPS["C10"] = {
         ("c10_zero_rows_cols", dict(stubs=True, nofloat=True, tier="thorough", unit="DefaultProblemData::equilibrate", inst="f64", bounds="n=m=2, empty column 1 of [P;A], empty row 1 of A, 2 sweeps", oracle="d[1] == e[1] == 1 exactly", timeout=3600, mem_gb=20)),
         ("c10_bounds_pow2_2sweeps", dict(stubs=True, nofloat=True, tier="thorough", unit=_EQ_UNIT, inst="f64: data entries are powers of two with symbolic exponent in [-40,40] (24 orders of magnitude), default bounds 1e-4 / 1e4", bounds="n=m=1, 2 Ruiz sweeps", timeout=6000, mem_gb=28,
             oracle="cumulative d, e, c stay within [min_scaling, max_scaling] (8 ulp slack)")),
+        ("c10_bounds_pow2_nonsquare_1sweep", dict(stubs=True, nofloat=True, unit=_EQ_UNIT, inst="f64: data entries are powers of two with symbolic exponent in [-40,40]", bounds="n=1, m=2 (non-square), P = 0, one sweep", timeout=2400, mem_gb=24, oracle="d[0], e[0] and the trailing row factor e[1] all within [min,max] (up to 8 ulp)")),
         ("c10_rectify", dict(unit="rectify_equilibration of NonnegativeCone/ZeroCone/SecondOrderCone/ExponentialCone/PowerCone", inst="GF(13)", bounds="dim 3", oracle="scalar cones: delta=1,false; others: true and delta*e == mean(e) (constant)", timeout=1200)),
     ]),
 }
